@@ -24,7 +24,7 @@ def fields(reg):
     f("_out_data_cache", TDict(Str, PAYOBJ))
     f("_exchanged_out_infos", TDict(Str, TOpt(TRef("Info"))))
     f("_exchanged_in_infos", TDict(Str, TOpt(TRef("Info"))))
-    f("_pulled_data", TDict(Str, TOpt(PAYOBJ)))
+    f("_pulled_data", TDict(Str, TOpt(sv.Pay)))
     f("_cache", Bool)
     f("$push_log", TList(PushRec))
 
@@ -279,7 +279,20 @@ def register_connect(reg):
                      raise_frame_empty=True))
     reg.add(Contract("iface:IOutput.info", result=TRef("Info"), verify=False, pure=True,
                      ensures=lambda ctx, r: r.e > 0, raises={"FinamNoDataError": lambda ctx: z3.BoolVal(True)}, raise_frame_empty=True))
-    reg.add(Contract("iface:IInput.pull_data", params={"time": TimeOpt, "target": TOpt(TRef("IInput"))}, defaults={"target": sv.NONE}, note="method", result=PAYOBJ,
+    from .base import pull_log as _pl
+    from .c_components import PULLV
+
+    def ipd_post(ctx, r):
+        l0, l1 = _pl(ctx.old), _pl(ctx)
+        i = z3.Int(sv.uid("ip"))
+        tgt = ctx.target
+        eff = sv.ite(ctx.ex.truthy(tgt, ctx.path), tgt, ctx.self)
+        rec = l1.at(l0.n)
+        return And(l1.n == l0.n + 1, z3.ForAll([i], Implies(And(0 <= i, i < l0.n), sv.value_eq(l1.at(i), l0.at(i)))),
+                   sv.value_eq(rec.items[1], ctx.time), sv.value_eq(rec.items[2], eff), r.e == PULLV(l0.n))
+
+    reg.add(Contract("iface:IInput.pull_data", params={"time": TimeOpt, "target": TOpt(TRef("IInput"))}, defaults={"target": sv.NONE}, note="method",
+                     result=sv.Pay, ensures=ipd_post,
                      verify=False, modifies=lambda ctx: [(None, f) for f in RET + ["_cached_data"]] + [(WORLD, "$pull_log")],
                      raises={"FinamNoDataError": lambda ctx: z3.BoolVal(True), "FinamTimeError": lambda ctx: z3.BoolVal(True),
                              "FinamDataError": lambda ctx: z3.BoolVal(True)},
